@@ -6,7 +6,7 @@ from harness import graphs as G
 from harness import strategies as S
 from harness.core import Acc, Violation, lib, must, must_raise
 from harness.hyp import job_seed, run_property, scaled
-from props.gcommon import compare_sets, pdag_codes, result_set, signed_copy, to_np
+from props.gcommon import DTYPE_NAMES, compare_sets, pdag_codes, result_set, signed_copy, to_np
 
 PROP = "C07"
 RULE = ("all_dags on every PDAG with acyclic directed part (p<=4 quick, p<=5 thorough: 765,664), mec (both check_chain "
@@ -57,7 +57,7 @@ def check(case):
     if sub in ("alldags_exh", "alldags_hyp"):
         P = G.rows_from_lists(case["P"])
         p = len(P)
-        A = to_np(P, float if case.get("dtype") == "float" else int)
+        A = to_np(P, case.get("dtype", "int"))
         keep = A.copy()
         want = _ext(P)
         res = must(lib(utils.all_dags, A), "all_dags")
@@ -84,7 +84,7 @@ def check(case):
                 A = 2.0 * to_np(D, float)
                 kw = {}
             else:
-                A = to_np(D, float if var != "int" else int)
+                A = to_np(D, var if var in DTYPE_NAMES else "float")
                 kw = {"check_chain": False} if var == "nochain" else {}
             res = must(lib(utils.mec, A, **kw), "mec[%s]" % var)
             got, n = result_set(res, p, "mec")
@@ -148,7 +148,7 @@ def _run_alldags_exh(acc, job):
     for k, (code, P) in enumerate(pdag_codes(p)):
         if k % job["nshards"] != job["shard"]:
             continue
-        case = {"sub": "alldags_exh", "P": G.lists_from_rows(P), "dtype": "float" if code % 3 == 0 else "int",
+        case = {"sub": "alldags_exh", "P": G.lists_from_rows(P), "dtype": DTYPE_NAMES[code % 6],
                 "ice": (code % job["ice_every"] == 0)}
         try:
             lab = check(case)
@@ -166,7 +166,7 @@ def _run_mec_exh(acc, job):
     for k, D in enumerate(dags):
         if k % job["nshards"] != job["shard"] or (k // job["nshards"]) % step != off % step:
             continue
-        case = {"sub": job["sub"], "A": G.lists_from_rows(D), "variants": ["int", "nochain"] if k % 2 else ["float", "weighted"], "salt": k}
+        case = {"sub": job["sub"], "A": G.lists_from_rows(D), "variants": [["int", "nochain"], ["float", "weighted"], ["uint8", "weighted"], ["bool", "int32"]][k % 4], "salt": k}
         try:
             lab = check(case)
             acc.record(case, lab, _nontrivial(case, lab), by_construction=True, sample=(k % 499 == 7))
@@ -246,7 +246,7 @@ def _mec_case(draw):
         for (i, j) in es[10:]:
             small[i][j] = 0
         A = draw(S.embedded(small))
-    var = draw(st.sampled_from([["int"], ["float"], ["weighted"], ["nochain"]]))
+    var = draw(st.sampled_from([["int"], ["float"], ["weighted"], ["nochain"], ["uint8"], ["bool"]]))
     return {"sub": "mec_hyp", "A": A, "variants": var, "salt": draw(st.integers(0, 7))}
 
 
@@ -256,7 +256,7 @@ def _alldags_case(draw):
         P = draw(S.pdag(6, 8, max_undirected=9, weights=(4, 2, 2)))
     else:      # a small, denser PDAG relabelled into 9..12 nodes (label-dependent code paths)
         P = draw(S.embedded(draw(S.pdag(3, 6, max_undirected=8, weights=(2, 3, 3)))))
-    return {"sub": "alldags_hyp", "P": P, "dtype": draw(st.sampled_from(["int", "float"])), "ice": draw(st.integers(0, 9)) == 0}
+    return {"sub": "alldags_hyp", "P": P, "dtype": draw(st.sampled_from(DTYPE_NAMES)), "ice": draw(st.integers(0, 9)) == 0}
 
 
 def plan(tier, seed):
